@@ -98,6 +98,10 @@ func scEquals(a Atom) (int64, bool) {
 	return 0, false
 }
 
+// chainFuncs names the functions of a chain; the HTML escapers are named by
+// what they do: "⟨escape⟩" for a function all of whose returns are
+// HTMLEscaped(Stringify(args...)), "⟨escape|HTML⟩" for one that additionally
+// passes safehtml.HTML values through.
 func chainFuncs(pl *Policy, alt chainAlt) []string {
 	var out []string
 	for _, e := range alt.Elems {
@@ -108,19 +112,54 @@ func chainFuncs(pl *Policy, alt chainAlt) []string {
 		f := pl.Funcs[e.Const]
 		if f == nil {
 			out = append(out, "?"+e.Const)
-		} else {
-			out = append(out, fnName(f))
+			continue
 		}
+		out = append(out, funcClass(pl, f))
 	}
 	return out
+}
+
+var funcClassCache = map[*ssa.Function]string{}
+
+func funcClass(pl *Policy, f *ssa.Function) string {
+	if c, ok := funcClassCache[f]; ok {
+		return c
+	}
+	c := fnName(f)
+	if f.Pkg != nil && f.Pkg.Pkg.Path() == modulePath+"/template" && f.Signature.Results().Len() == 2 {
+		pv := NewProv(pl.prog)
+		pv.NoInline = true
+		sum := summariseSanitizer(pl.prog, pv, f)
+		kinds := strings.Join(sum.Kinds(), ",")
+		if len(sum.Problems) == 0 {
+			switch {
+			case kinds == "escaped":
+				c = fnEscape
+			case kinds == "escaped,passthrough" && strings.Join(sum.PassTypes(), ",") == "HTML":
+				c = fnEscapeOrHTML
+			}
+		}
+	}
+	funcClassCache[f] = c
+	return c
 }
 
 const (
 	fnQueryEscape  = pkgUtil + ".QueryEscapeURL"
 	fnNormalize    = pkgUtil + ".NormalizeURL"
 	fnValidateSub  = modulePath + "/template.validateTrustedResourceURLSubstitution"
-	fnSanitizeHTML = modulePath + "/template.sanitizeHTML"
+	fnEscape       = "⟨escape⟩"
+	fnEscapeOrHTML = "⟨escape|HTML⟩"
 )
+
+// endsInEscaper: the chain's last function HTML-escapes (possibly passing HTML through).
+func endsInEscaper(fns []string) bool {
+	return len(fns) > 0 && (fns[len(fns)-1] == fnEscape || fns[len(fns)-1] == fnEscapeOrHTML)
+}
+
+func sameButLast(fns, want []string) bool {
+	return len(fns) == len(want)+1 && sameStrings(fns[:len(fns)-1], want) && endsInEscaper(fns)
+}
 
 func sameStrings(a, b []string) bool {
 	if len(a) != len(b) {
@@ -165,10 +204,10 @@ func checkURLPrefixChains(p *Program, r *Report) {
 		c := fmt.Sprintf("template.sanitizersForAttributeValue#url-chain%d", i)
 		switch {
 		case emptyPrefix:
-			want := []string{"⟨sc⟩", fnNormalize, fnSanitizeHTML}
+			want := []string{"⟨sc⟩", fnNormalize}
 			okSym := len(alt.Elems) == 3 && alt.Elems[0].Sym != nil && isSanitizerNameOfSC(alt.Elems[0].Sym)
-			r.Check(sameStrings(fns, want) && okSym, rule, c+":no-prefix", pos, "without a static prefix: [context sanitizer, NormalizeURL, sanitizeHTML]",
-				fmt.Sprintf("chain without a static prefix is %v, expected [context sanitizer, NormalizeURL, sanitizeHTML]", fns))
+			r.Check(sameButLast(fns, want) && okSym, rule, c+":no-prefix", pos, "without a static prefix: [context sanitizer, NormalizeURL, HTML escaper]",
+				fmt.Sprintf("chain without a static prefix is %v, expected [context sanitizer, NormalizeURL, HTML escaper]", fns))
 		case nonEmptyPrefix:
 			hasValidator := guardHas(alt.Guards, func(a Atom) bool { return isValidatorNil(a) && a.Pol })
 			notAmbig := guardHas(alt.Guards, func(a Atom) bool { return isAmbiguousField(a) && !a.Pol })
@@ -195,16 +234,16 @@ func checkURLPrefixChains(p *Program, r *Report) {
 			coversQF := strings.Contains(qfSet, "#") && strings.Contains(qfSet, "?")
 			switch {
 			case isTRU:
-				want := []string{fnValidateSub, fnQueryEscape, fnSanitizeHTML}
-				r.Check(sameStrings(fns, want), rule, c+":after-TrustedResourceURL-prefix", pos, "after a TrustedResourceURL prefix: [reject .., QueryEscapeURL, sanitizeHTML]",
+				want := []string{fnValidateSub, fnQueryEscape}
+				r.Check(sameButLast(fns, want), rule, c+":after-TrustedResourceURL-prefix", pos, "after a TrustedResourceURL prefix: [reject .., QueryEscapeURL, HTML escaper]",
 					fmt.Sprintf("chain after a TrustedResourceURL prefix is %v", fns))
 			case notTRU && hasQF && qfPol:
-				want := []string{fnQueryEscape, fnSanitizeHTML}
-				r.Check(sameStrings(fns, want), rule, c+":in-query-or-fragment", pos, fmt.Sprintf("prefix contains one of %q: [QueryEscapeURL, sanitizeHTML]", qfSet),
+				want := []string{fnQueryEscape}
+				r.Check(sameButLast(fns, want), rule, c+":in-query-or-fragment", pos, fmt.Sprintf("prefix contains one of %q: [QueryEscapeURL, HTML escaper]", qfSet),
 					fmt.Sprintf("chain in the query/fragment part is %v", fns))
 			case notTRU && hasQF && !qfPol:
-				want := []string{fnNormalize, fnSanitizeHTML}
-				r.Check(sameStrings(fns, want) && coversQF, rule, c+":elsewhere", pos, "prefix without '#' and '?': [NormalizeURL, sanitizeHTML]",
+				want := []string{fnNormalize}
+				r.Check(sameButLast(fns, want) && coversQF, rule, c+":elsewhere", pos, "prefix without '#' and '?': [NormalizeURL, HTML escaper]",
 					fmt.Sprintf("chain %v is used whenever the prefix contains none of %q; the statement requires full percent-encoding after both '?' and '#'", fns, qfSet))
 			default:
 				r.Undec(rule, c+":class", pos, fmt.Sprintf("prefix class of chain %v not recognised from its guards", fns))
